@@ -414,6 +414,10 @@ def r5_actions(repo, report):
         else:
             report.unrecognised("C03.R5", f"AdapterCutter.match_and_trim action={a!r}", "the option offers an action that the property does not describe", repo.loc(mt))
             continue
+        ups1 = sorted({f"{e[1]} = {str(e[2])[:50]}" for r in rows for e in r.effects if e[0] == "store" and str(e[1]).endswith(".sequence") and ".upper()" in str(e[2])})
+        report.ob("C03.R5", f"AdapterCutter.match_and_trim action={a!r}: case is normalised only for 'lowercase'", (not ups1) or a == "lowercase", facts={"upper_casing_stores": ups1}, loc=repo.loc(mt),
+                  expected="read.sequence.upper() only on the way to the lowercase action",
+                  why=(f"with action {a!r} the read is upper-cased ({ups1[0]})" if ups1 and a != "lowercase" else ""))
         # a private copy of the read (READ[:]) handed to the helper is as good as the read itself
         norm = [o.replace("(READ[:], [MATCH])", "(READ, [MATCH])") if a in helper else o for o in outs]
         report.ob("C03.R5", f"AdapterCutter.match_and_trim action={a!r}", norm == [want], facts={"returns": outs}, expected=want, loc=repo.loc(mt), fact_key=f"action={a}",
@@ -468,6 +472,10 @@ def r5_actions(repo, report):
         if a not in ("trim", None) and a not in helper:
             continue
         want = f"[{w('R1', 'M1')}, {w('R2', 'M2')}]"
+        ups = sorted({f"{e[1]} = {str(e[2])[:50]}" for r in rows for e in r.effects if e[0] == "store" and str(e[1]).endswith(".sequence") and ".upper()" in str(e[2])})
+        report.ob("C03.R5", f"PairedAdapterCutter.__call__ action={a!r}: case is normalised only for 'lowercase'", (not ups) or a == "lowercase", facts={"upper_casing_stores": ups}, loc=repo.loc(pc),
+                  expected="read.sequence.upper() only on the way to the lowercase action",
+                  why=(f"with action {a!r} the read is upper-cased ({ups[0]}): lower-case bases in the part that is kept are changed although only mask/lowercase may change bases, and mask only to N" if ups and a != "lowercase" else ""))
         normp = [re.sub(r"\((R[12])\[:\], \[", r"(\1, [", o) if a in helper else o for o in outs]  # a private copy handed to the helper is as good as the read
         report.ob("C03.R5", f"PairedAdapterCutter.__call__ action={a!r}", normp == [want], facts={"returns": outs}, expected=want, loc=repo.loc(pc), fact_key=f"action={a}",
                   why="" if normp == [want] else f"with --pair-adapters, action {a!r} returns {outs}")
